@@ -131,48 +131,51 @@ func r10_1(c *Ctx, r *Report) {
 	}
 	sites := reversePushSites(c, fn)
 	for _, ps := range sites {
-		fr, facts := factsAt(c, ps.fn, ps.call.Block())
-		pfr, pushed := fr.origin(unwrapIface(ps.call.Common().Args[1]))
-		found := map[int][]string{}
-		base := false
-		for _, f := range facts {
-			if x, y, ok := equalityFact(f); ok {
-				for _, pr := range [][2]ssa.Value{{x, y}, {y, x}} {
-					idx := topParam(f.fr, pr[1], fn)
-					if idx < 0 || idx > 3 {
-						continue
+		// once per way control reaches the append (a helper or function literal called from several places)
+		for _, ctx := range factsAtAll(c, ps.fn, ps.call.Block()) {
+			fr, facts := ctx.fr, ctx.facts
+			pfr, pushed := fr.origin(unwrapIface(ps.call.Common().Args[1]))
+			found := map[int][]string{}
+			base := false
+			for _, f := range facts {
+				if x, y, ok := equalityFact(f); ok {
+					for _, pr := range [][2]ssa.Value{{x, y}, {y, x}} {
+						idx := topParam(f.fr, pr[1], fn)
+						if idx < 0 || idx > 3 {
+							continue
+						}
+						names, sfr, solar, ok := pillarAccessorFr(f.fr, pr[0], 0)
+						if !ok || solar != pushed || sfr.fn != pfr.fn {
+							continue
+						}
+						found[idx] = append(found[idx], names...)
 					}
-					names, sfr, solar, ok := pillarAccessorFr(f.fr, pr[0], 0)
-					if !ok || solar != pushed || sfr.fn != pfr.fn {
-						continue
+				}
+				if bo, ok := f.cond.(*ssa.BinOp); ok {
+					x, y, op := bo.X, bo.Y, bo.Op
+					if topParam(f.fr, x, fn) == len(fn.Params)-1 {
+						x, y, op = y, x, flipOp(op)
 					}
-					found[idx] = append(found[idx], names...)
-				}
-			}
-			if bo, ok := f.cond.(*ssa.BinOp); ok {
-				x, y, op := bo.X, bo.Y, bo.Op
-				if topParam(f.fr, x, fn) == len(fn.Params)-1 {
-					x, y, op = y, x, flipOp(op)
-				}
-				if topParam(f.fr, y, fn) == len(fn.Params)-1 && ((op == token.GEQ && f.truth) || (op == token.LSS && !f.truth)) {
-					if _, g := f.fr.origin(x); g != nil {
-						if rc, fld, ok := getterField(c, g); ok && fld == "Solar.year" && structName(rc.Type()) == "Solar" {
-							base = true
+					if topParam(f.fr, y, fn) == len(fn.Params)-1 && ((op == token.GEQ && f.truth) || (op == token.LSS && !f.truth)) {
+						if _, g := f.fr.origin(x); g != nil {
+							if rc, fld, ok := getterField(c, g); ok && fld == "Solar.year" && structName(rc.Type()) == "Solar" {
+								base = true
+							}
 						}
 					}
 				}
 			}
+			var got []string
+			for i := 0; i < 4; i++ {
+				ns := dedupe(found[i])
+				sort.Strings(ns)
+				got = append(got, fmt.Sprintf("%d:%s", i+1, strings.Join(ns, "|")))
+			}
+			day := strings.HasPrefix(got[2], "3:GetDayInGanZhiExact")
+			okk := got[0] == "1:GetYearInGanZhiExact" && got[1] == "2:GetMonthInGanZhiExact" && day && got[3] == "4:GetTimeInGanZhi" && base
+			r.check(okk, rule, "calendar.ListSolarFromBaZiBySectAndBaseYear: every pushed moment was verified by forward conversion", c.pos(ps.call.Pos()),
+				fmt.Sprintf("known equalities between pillar parameters and accessors of the pushed moment's own lunar date: %v; Jie year >= base year known: %v", got, base))
 		}
-		var got []string
-		for i := 0; i < 4; i++ {
-			ns := dedupe(found[i])
-			sort.Strings(ns)
-			got = append(got, fmt.Sprintf("%d:%s", i+1, strings.Join(ns, "|")))
-		}
-		day := strings.HasPrefix(got[2], "3:GetDayInGanZhiExact")
-		okk := got[0] == "1:GetYearInGanZhiExact" && got[1] == "2:GetMonthInGanZhiExact" && day && got[3] == "4:GetTimeInGanZhi" && base
-		r.check(okk, rule, "calendar.ListSolarFromBaZiBySectAndBaseYear: every pushed moment was verified by forward conversion", c.pos(ps.call.Pos()),
-			fmt.Sprintf("known equalities between pillar parameters and accessors of the pushed moment's own lunar date: %v; Jie year >= base year known: %v", got, base))
 	}
 	if len(sites) == 0 {
 		r.bad(rule, "instance floor R10.1", c.fnPos(fn), "no PushBack found")
@@ -201,14 +204,17 @@ func topFrame(fr *evalFrame) *evalFrame {
 
 func r10_2(c *Ctx, r *Report) {
 	const rule = "R10.2"
-	r.rule(rule, "Day-boundary convention, by evaluation over the raw sect argument (…, 0, 1, 2, 3): the day pillar compared in the verification is GetDayInGanZhiExact when sect is 1 and GetDayInGanZhiExact2 for every other value (sect is normalised to {1,2}); the hour list {0, 23} of the rat slot is built only where a condition on sect that is false for 1 and true otherwise, and an equality of the hour computed from the hour pillar with 0, are known to hold.")
+	r.rule(rule, "Day-boundary convention, by evaluation over the raw sect argument (…, 0, 1, 2, 3): the day pillar compared in the verification is GetDayInGanZhiExact when sect is 1 and GetDayInGanZhiExact2 for every other value (sect is normalised to {1,2}); the hour 23 is added as a second candidate of the rat slot (second element of an hour list, or a second call of the helper or function literal that verifies one hour) only where a condition on sect that is false for 1 and true otherwise, and an equality of the hour computed from the hour pillar with 0, are known to hold.")
 	fn := reverseLookup(c, r, rule)
 	if fn == nil || len(fn.Params) != 6 {
 		return
 	}
 	n := 0
 	for _, ps := range reversePushSites(c, fn) {
-		_, facts := factsAt(c, ps.fn, ps.call.Block())
+		var facts []fact
+		for _, ctx := range factsAtAll(c, ps.fn, ps.call.Block()) {
+			facts = append(facts, ctx.facts...)
+		}
 		for _, f := range facts {
 			x, y, ok := equalityFact(f)
 			if !ok {
@@ -237,53 +243,37 @@ func r10_2(c *Ctx, r *Report) {
 	if n == 0 {
 		r.bad(rule, "the verified day pillar follows sect", c.fnPos(fn), "no day-pillar equality is known at a PushBack")
 	}
-	// the two-hour list
+	// the second candidate hour of the rat slot
 	m := 0
-	for _, f := range withHelpers(c, fn) {
-		for _, b := range f.Blocks {
-			for _, ins := range b.Instrs {
-				st, ok := ins.(*ssa.Store)
-				if !ok {
-					continue
+	for _, site := range lateRatSites(c, fn) {
+		m++
+		_, facts := factsAt(c, site.fn, site.block)
+		sectKnown, ratKnown := false, false
+		for _, fc := range facts {
+			onSect := true
+			for _, raw := range []int64{-1, 0, 1, 2, 3} {
+				got, ok := evalWith(fc.fr, fc.cond, sectLeaf(fn, raw))
+				bv, isB := got.(bool)
+				if !ok || !isB || (bv == fc.truth) != (raw != 1) {
+					onSect = false
 				}
-				ia, ok := st.Addr.(*ssa.IndexAddr)
-				k, isK := constInt(st.Val)
-				if !ok || !isK || k != 23 {
-					continue
-				}
-				if i, ok := constInt(ia.Index); !ok || i != 1 {
-					continue
-				}
-				m++
-				_, facts := factsAt(c, f, b)
-				sectKnown, ratKnown := false, false
-				for _, fc := range facts {
-					onSect := true
-					for _, raw := range []int64{-1, 0, 1, 2, 3} {
-						got, ok := evalWith(fc.fr, fc.cond, sectLeaf(fn, raw))
-						bv, isB := got.(bool)
-						if !ok || !isB || (bv == fc.truth) != (raw != 1) {
-							onSect = false
-						}
-					}
-					if onSect {
-						sectKnown = true
-					}
-					if bo, ok := fc.cond.(*ssa.BinOp); ok && ((bo.Op == token.EQL && fc.truth) || (bo.Op == token.NEQ && !fc.truth)) {
-						for _, pr := range [][2]ssa.Value{{bo.X, bo.Y}, {bo.Y, bo.X}} {
-							if z, ok := constInt(pr[0]); ok && z == 0 && dependsOnTopParam(fc.fr, pr[1], fn, 3, 0) {
-								ratKnown = true
-							}
-						}
+			}
+			if onSect {
+				sectKnown = true
+			}
+			if bo, ok := fc.cond.(*ssa.BinOp); ok && ((bo.Op == token.EQL && fc.truth) || (bo.Op == token.NEQ && !fc.truth)) {
+				for _, pr := range [][2]ssa.Value{{bo.X, bo.Y}, {bo.Y, bo.X}} {
+					if z, ok := constInt(pr[0]); ok && z == 0 && dependsOnTopParam(fc.fr, pr[1], fn, 3, 0) {
+						ratKnown = true
 					}
 				}
-				r.check(sectKnown && ratKnown, rule, "the rat slot is searched at hours {0, 23} only under the late-rat school", c.pos(st.Pos()),
-					fmt.Sprintf("a condition equivalent to sect != 1 is known where 23 is stored: %v; the computed hour == 0 is known: %v", sectKnown, ratKnown))
 			}
 		}
+		r.check(sectKnown && ratKnown, rule, "the rat slot is searched at hours {0, 23} only under the late-rat school", c.pos(site.pos),
+			fmt.Sprintf("a condition equivalent to sect != 1 is known where the hour 23 is added: %v; the computed hour == 0 is known: %v", sectKnown, ratKnown))
 	}
 	if m == 0 {
-		r.bad(rule, "the rat slot is searched at hours {0, 23} only under the late-rat school", c.fnPos(fn), "no hour list with a second element 23 is built")
+		r.bad(rule, "the rat slot is searched at hours {0, 23} only under the late-rat school", c.fnPos(fn), "nowhere is the hour 23 added as a second candidate (a list {0, 23}, or a second call of the verifying helper)")
 	}
 }
 
@@ -362,28 +352,15 @@ func r10_3(c *Ctx, r *Report) {
 						stride = false
 						steps = append(steps, "(not 60)")
 					}
-				case *ssa.Store:
-					ia, ok := x.Addr.(*ssa.IndexAddr)
-					k, isK := constInt(x.Val)
-					if !ok || !isK || k != 23 {
-						continue
-					}
-					if i, ok := constInt(ia.Index); ok && i == 1 {
-						// the element before it in the same array
-						for _, ins2 := range b.Instrs {
-							if st2, ok := ins2.(*ssa.Store); ok {
-								if ia2, ok := st2.Addr.(*ssa.IndexAddr); ok && ia2.X == ia.X {
-									i2, ok1 := constInt(ia2.Index)
-									k2, ok2 := constInt(st2.Val)
-									if ok1 && ok2 && i2 == 0 && k2 == 0 {
-										asc = true
-									}
-								}
-							}
-						}
-					}
 				}
 			}
+		}
+	}
+	sites23 := lateRatSites(c, fn)
+	asc = len(sites23) > 0
+	for _, site := range sites23 {
+		if !site.asc {
+			asc = false
 		}
 	}
 	r.check(onlyBack && stride && asc, rule, "results are appended in increasing candidate order", c.fnPos(fn), fmt.Sprintf("append-only: %v; candidate year steps %v, all +60: %v; rat-slot hours ascending {0,23}: %v", onlyBack, steps, stride, asc))
@@ -451,161 +428,186 @@ func r10_5(c *Ctx, r *Report) {
 	}
 	n := 0
 	for _, ps := range reversePushSites(c, fn) {
-		fr0, _ := factsAt(c, ps.fn, ps.call.Block())
-		cfr, cv := fr0.origin(unwrapIface(ps.call.Common().Args[1]))
-		ctor, ok := cv.(*ssa.Call)
-		if !ok || ctor.Common().StaticCallee() == nil || ctor.Common().StaticCallee().Name() != "NewSolar" || len(ctor.Common().Args) != 6 {
-			r.bad(rule, "the candidate is built by NewSolar", c.pos(ps.call.Pos()), "the pushed moment is not the result of a NewSolar call")
-			continue
-		}
-		n++
-		problems := map[string]bool{}
-		var bad []string
-		cases := 0
-		type hc struct{ h, th int64 }
-		for _, hh := range []hc{{5, 5}, {5, 7}, {0, 23}} {
-			for a := int64(0); a < 60 && len(bad) < 4 && len(problems) == 0; a++ {
-				for b := int64(0); b < 60 && len(bad) < 4 && len(problems) == 0; b++ {
-					var leaf leafX
-					stepOf := func(fr *evalFrame, v ssa.Value) (absMomentStep, bool) {
-						o, ok := evalWith(fr, v, leaf)
-						s, isS := o.(absMomentStep)
-						return s, ok && isS
-					}
-					leaf = func(fr *evalFrame, v ssa.Value) (interface{}, bool) {
-						if rc, f, ok := getterField(c, v); ok && strings.HasPrefix(f, "Solar.") {
-							if s, ok := stepOf(fr, rc); ok {
-								switch f {
-								case "Solar.year":
-									return int64(9000), true
-								case "Solar.month":
-									return int64(9), true
-								case "Solar.day":
-									return s.k, true
-								case "Solar.hour":
-									return hh.th, true
-								case "Solar.minute":
-									return int64(77), true
-								case "Solar.second":
-									return int64(88), true
+		// once per way control reaches the verification (a helper or function literal called once per candidate hour)
+		for _, ctx := range factsAtAll(c, ps.fn, ps.call.Block()) {
+			fr0 := ctx.fr
+			cfr, cv := fr0.origin(unwrapIface(ps.call.Common().Args[1]))
+			ctor, ok := cv.(*ssa.Call)
+			if !ok || ctor.Common().StaticCallee() == nil || ctor.Common().StaticCallee().Name() != "NewSolar" || len(ctor.Common().Args) != 6 {
+				r.bad(rule, "the candidate is built by NewSolar", c.pos(ps.call.Pos()), "the pushed moment is not the result of a NewSolar call")
+				continue
+			}
+			n++
+			problems := map[string]bool{}
+			var bad []string
+			cases := 0
+			type hc struct{ h, th int64 }
+			for _, hh := range []hc{{5, 5}, {5, 7}, {0, 23}} {
+				for a := int64(0); a < 60 && len(bad) < 4 && len(problems) == 0; a++ {
+					for b := int64(0); b < 60 && len(bad) < 4 && len(problems) == 0; b++ {
+						var leaf leafX
+						stepOf := func(fr *evalFrame, v ssa.Value) (absMomentStep, bool) {
+							o, ok := evalWith(fr, v, leaf)
+							s, isS := o.(absMomentStep)
+							return s, ok && isS
+						}
+						leaf = func(fr *evalFrame, v ssa.Value) (interface{}, bool) {
+							if rc, f, ok := getterField(c, v); ok && strings.HasPrefix(f, "Solar.") {
+								if s, ok := stepOf(fr, rc); ok {
+									switch f {
+									case "Solar.year":
+										return int64(9000), true
+									case "Solar.month":
+										return int64(9), true
+									case "Solar.day":
+										return s.k, true
+									case "Solar.hour":
+										return hh.th, true
+									case "Solar.minute":
+										return int64(77), true
+									case "Solar.second":
+										return int64(88), true
+									}
 								}
 							}
-						}
-						switch x := v.(type) {
-						case *ssa.Lookup:
-							if mt, isM := x.X.Type().Underlying().(*types.Map); isM && structName(mt.Elem()) == "Solar" {
-								return absMomentStep{0}, true
-							}
-						case *ssa.Extract:
-							if lk, isL := x.Tuple.(*ssa.Lookup); isL && lk.CommaOk {
-								if mt, isM := lk.X.Type().Underlying().(*types.Map); isM && structName(mt.Elem()) == "Solar" {
-									if x.Index == 1 {
-										return true, true
+							switch x := v.(type) {
+							case *ssa.Parameter:
+								// the candidate hour handed to a helper or function literal that verifies one hour: the hour computed
+								// from the hour pillar is the input; a constant (23) is left to be read as it is
+								if fr.parent != nil && isIntType(x.Type()) {
+									if ofr, ov := fr.origin(x); ofr != fr {
+										if _, isK := ov.(*ssa.Const); !isK && dependsOnTopParam(ofr, ov, fn, 3, 0) {
+											return hh.h, true
+										}
 									}
+								}
+							case *ssa.BinOp:
+								// the hour computed from the hour pillar (slot index * 2), wherever it is consulted directly
+								if x.Op == token.MUL && fr.fn == fn && isIntType(x.Type()) && dependsOnTopParam(fr, x, fn, 3, 0) {
+									return hh.h, true
+								}
+							case *ssa.Lookup:
+								if mt, isM := x.X.Type().Underlying().(*types.Map); isM && structName(mt.Elem()) == "Solar" {
 									return absMomentStep{0}, true
 								}
-							}
-						case *ssa.UnOp:
-							if ia, ok := x.X.(*ssa.IndexAddr); ok && x.Op == token.MUL && isIntType(x.Type()) {
-								if _, isSlice := ia.X.Type().Underlying().(*types.Slice); isSlice {
-									if ld, isLd := ia.X.(*ssa.UnOp); !isLd || !isGlobalLoad(ld) {
-										return hh.h, true // the candidate hour taken from the hour list
+							case *ssa.Extract:
+								if lk, isL := x.Tuple.(*ssa.Lookup); isL && lk.CommaOk {
+									if mt, isM := lk.X.Type().Underlying().(*types.Map); isM && structName(mt.Elem()) == "Solar" {
+										if x.Index == 1 {
+											return true, true
+										}
+										return absMomentStep{0}, true
 									}
 								}
-							}
-						case *ssa.Call:
-							callee := x.Common().StaticCallee()
-							if callee == nil {
-								return nil, false
-							}
-							args := x.Common().Args
-							switch {
-							case callee.Name() == "GetJiaZiIndex" && len(args) == 1:
-								if topParam(fr, args[0], fn) == 2 {
-									return a, true
-								}
-								if names, _, solar, ok := pillarAccessorFr(fr, args[0], 0); ok {
-									if s, ok := stepOf(fr, solar); !ok || s.k != 0 {
-										problems["the reference pillar is not taken at the Jie moment"] = true
-										return nil, false
+							case *ssa.UnOp:
+								if ia, ok := x.X.(*ssa.IndexAddr); ok && x.Op == token.MUL && isIntType(x.Type()) {
+									if _, isSlice := ia.X.Type().Underlying().(*types.Slice); isSlice {
+										if ld, isLd := ia.X.(*ssa.UnOp); !isLd || !isGlobalLoad(ld) {
+											return hh.h, true // the candidate hour taken from the hour list
+										}
 									}
-									if len(names) != 1 || names[0] != "GetDayInGanZhiExact2" {
-										problems["the reference pillar is "+strings.Join(names, "|")+", not the civil-day GetDayInGanZhiExact2"] = true
-										return nil, false
-									}
-									return b, true
 								}
-								return nil, false
-							case recvIsNamed(callee, "Solar") && (callee.Name() == "Next" || callee.Name() == "NextDay"):
-								s, ok := stepOf(fr, args[0])
-								d, ok2 := evalWith(fr, args[1], leaf)
-								dk, isI := d.(int64)
-								if !ok || !ok2 || !isI {
+							case *ssa.Call:
+								callee := x.Common().StaticCallee()
+								if callee == nil {
 									return nil, false
 								}
-								if callee.Name() == "Next" {
-									if w, ok := evalWith(fr, args[2], leaf); !ok || w != interface{}(false) {
-										problems["the offset is applied in working days"] = true
+								args := x.Common().Args
+								switch {
+								case callee.Name() == "GetJiaZiIndex" && len(args) == 1:
+									if topParam(fr, args[0], fn) == 2 {
+										return a, true
+									}
+									if names, _, solar, ok := pillarAccessorFr(fr, args[0], 0); ok {
+										if s, ok := stepOf(fr, solar); !ok || s.k != 0 {
+											problems["the reference pillar is not taken at the Jie moment"] = true
+											return nil, false
+										}
+										if len(names) != 1 || names[0] != "GetDayInGanZhiExact2" {
+											problems["the reference pillar is "+strings.Join(names, "|")+", not the civil-day GetDayInGanZhiExact2"] = true
+											return nil, false
+										}
+										return b, true
+									}
+									return nil, false
+								case recvIsNamed(callee, "Solar") && (callee.Name() == "Next" || callee.Name() == "NextDay"):
+									s, ok := stepOf(fr, args[0])
+									d, ok2 := evalWith(fr, args[1], leaf)
+									dk, isI := d.(int64)
+									if !ok || !ok2 || !isI {
 										return nil, false
 									}
+									if callee.Name() == "Next" {
+										if w, ok := evalWith(fr, args[2], leaf); !ok || w != interface{}(false) {
+											problems["the offset is applied in working days"] = true
+											return nil, false
+										}
+									}
+									return absMomentStep{s.k + dk}, true
 								}
-								return absMomentStep{s.k + dk}, true
 							}
+							return nil, false
 						}
-						return nil, false
-					}
-					// walk one iteration of the innermost loop around the constructor (or the helper from its entry)
-					fr := &evalFrame{fn: cfr.fn, parent: cfr.parent, call: cfr.call, phiFrom: map[*ssa.BasicBlock]*ssa.BasicBlock{}}
-					ev := &evaluator{leaf: leaf, inline: inlineLibrary}
-					target := ctor.Block()
-					start, header := enclosingLoopBody(target)
-					if header != nil && start == nil {
-						problems["the loop around the constructor has an unexpected shape"] = true
-						break
-					}
-					if header != nil {
-						fr.phiFrom[start] = header
-					}
-					if start != target {
-						if start == nil {
-							start = cfr.fn.Blocks[0]
+						// walk one iteration of the innermost loop around the constructor (or the helper from its entry)
+						fr := &evalFrame{fn: cfr.fn, parent: cfr.parent, call: cfr.call, phiFrom: map[*ssa.BasicBlock]*ssa.BasicBlock{}}
+						ev := &evaluator{leaf: leaf, inline: inlineLibrary}
+						target := ctor.Block()
+						start, header := enclosingLoopBody(target)
+						if header != nil && start == nil {
+							problems["the loop around the constructor has an unexpected shape"] = true
+							break
+						}
+						if header != nil {
+							fr.phiFrom[start] = header
 						}
 						if start != target {
-							_, outcome := ev.runFrame(fr, start, func(bb *ssa.BasicBlock) bool { return bb == target })
-							if outcome != fmt.Sprintf("stop:%d", target.Index) {
-								problems["the path to the constructor is not walkable: "+outcome+" "+ev.fail] = true
-								break
+							if start == nil {
+								start = cfr.fn.Blocks[0]
+							}
+							if start != target {
+								_, outcome := ev.runFrame(fr, start, func(bb *ssa.BasicBlock) bool { return bb == target })
+								if outcome != fmt.Sprintf("stop:%d", target.Index) {
+									problems["the path to the constructor is not walkable: "+outcome+" "+ev.fail] = true
+									break
+								}
 							}
 						}
-					}
-					cases++
-					d := ((a-b)%60 + 60) % 60
-					wantMi, wantS := int64(0), int64(0)
-					if d == 0 && hh.h == hh.th {
-						wantMi, wantS = 77, 88
-					}
-					want := []int64{9000, 9, d, hh.h, wantMi, wantS}
-					var got []string
-					same := true
-					for i, arg := range ctor.Common().Args {
-						o, ok := ev.eval(fr, arg, 0)
-						got = append(got, fmt.Sprint(o))
-						if !ok || o != interface{}(want[i]) {
-							same = false
+						cases++
+						d := ((a-b)%60 + 60) % 60
+						// the candidate hour: the input, or the constant this context hands to the verifier
+						candHour := hh.h
+						if _, ov := fr.origin(ctor.Common().Args[3]); ov != nil {
+							if k, isK := constInt(ov); isK {
+								candHour = k
+							}
 						}
-					}
-					if !same && len(problems) == 0 {
-						bad = append(bad, fmt.Sprintf("a=%d b=%d candidate hour %d, Jie hour %d: NewSolar(%s) with 9000-9-<days moved>, Jie minute 77 and second 88; stated %v", a, b, hh.h, hh.th, strings.Join(got, ", "), want))
+						wantMi, wantS := int64(0), int64(0)
+						if d == 0 && candHour == hh.th {
+							wantMi, wantS = 77, 88
+						}
+						want := []int64{9000, 9, d, candHour, wantMi, wantS}
+						var got []string
+						same := true
+						for i, arg := range ctor.Common().Args {
+							o, ok := ev.eval(fr, arg, 0)
+							got = append(got, fmt.Sprint(o))
+							if !ok || o != interface{}(want[i]) {
+								same = false
+							}
+						}
+						if !same && len(problems) == 0 {
+							bad = append(bad, fmt.Sprintf("a=%d b=%d candidate hour %d, Jie hour %d: NewSolar(%s) with 9000-9-<days moved>, Jie minute 77 and second 88; stated %v", a, b, candHour, hh.th, strings.Join(got, ", "), want))
+						}
 					}
 				}
 			}
+			for p := range problems {
+				bad = append(bad, p)
+			}
+			sort.Strings(bad)
+			r.check(len(bad) == 0 && cases > 0, rule, "the candidate is the Jie moment moved by (a-b) mod 60 civil days, with the Jie minute and second only in the Jie's own hour", c.pos(ctor.Pos()),
+				fmt.Sprintf("%d assignments; deviations: %v", cases, headList(dedupe(bad), 3)))
 		}
-		for p := range problems {
-			bad = append(bad, p)
-		}
-		sort.Strings(bad)
-		r.check(len(bad) == 0 && cases > 0, rule, "the candidate is the Jie moment moved by (a-b) mod 60 civil days, with the Jie minute and second only in the Jie's own hour", c.pos(ctor.Pos()),
-			fmt.Sprintf("%d assignments; deviations: %v", cases, headList(dedupe(bad), 3)))
 	}
 	if n == 0 {
 		r.bad(rule, "instance floor R10.5", c.fnPos(fn), "no verified candidate found")
@@ -643,27 +645,56 @@ func loopBlocks(header *ssa.BasicBlock) map[*ssa.BasicBlock]bool {
 
 func r10_6(c *Ctx, r *Report) {
 	const rule = "R10.6"
-	r.rule(rule, "Every candidate is tried. The loops around the verified candidate (over the candidate hours, over the candidate years) are left only through their own loop test: no block of a loop body jumps out of the loop (a break or return on a failed verification would skip the remaining candidate hours of that day — the late-rat 23:00 after a failed 00:00 — or the remaining years). A necessary condition of completeness, which is otherwise not decided.")
+	r.rule(rule, "Every candidate is tried. The loops around the verified candidate (over the candidate years, and over the candidate hours where they are a list; around the append itself or around the calls of the helper or function literal that verifies one candidate) are left only through their own loop test: no block of a loop body jumps out of the loop (a break or return on a failed verification would skip the remaining candidate hours of that day — the late-rat 23:00 after a failed 00:00 — or the remaining years). A necessary condition of completeness, which is otherwise not decided.")
 	fn := reverseLookup(c, r, rule)
 	if fn == nil {
 		return
 	}
 	n := 0
+	// the loops around the append, and around every call of the helper or function literal it stands in
+	type point struct {
+		fn *ssa.Function
+		b  *ssa.BasicBlock
+	}
+	var points []point
+	seenPt := map[*ssa.BasicBlock]bool{}
+	var addPoint func(f *ssa.Function, b *ssa.BasicBlock, depth int)
+	addPoint = func(f *ssa.Function, b *ssa.BasicBlock, depth int) {
+		if seenPt[b] || depth > 3 {
+			return
+		}
+		seenPt[b] = true
+		points = append(points, point{f, b})
+		if f != fn && isLocalHelper(f) {
+			for _, site := range c.callSitesOf(f) {
+				addPoint(site.Parent(), site.Block(), depth+1)
+			}
+		}
+	}
 	for _, ps := range reversePushSites(c, fn) {
-		for h := ps.call.Block(); h != nil; h = h.Idom() {
+		addPoint(ps.fn, ps.call.Block(), 0)
+	}
+	seenLoop := map[*ssa.BasicBlock]bool{}
+	for _, pt := range points {
+		ps := struct {
+			fn   *ssa.Function
+			call *ssa.BasicBlock
+		}{pt.fn, pt.b}
+		for h := pt.b; h != nil; h = h.Idom() {
 			back := false
 			for _, p := range h.Preds {
 				if h.Dominates(p) {
 					back = true
 				}
 			}
-			if !back {
+			if !back || seenLoop[h] {
 				continue
 			}
 			body := loopBlocks(h)
-			if !body[ps.call.Block()] {
+			if !body[ps.call] {
 				continue
 			}
+			seenLoop[h] = true
 			n++
 			var exits []string
 			for b := range body {
@@ -680,9 +711,82 @@ func r10_6(c *Ctx, r *Report) {
 			r.check(len(exits) == 0, rule, fmt.Sprintf("%s: loop #%d around the append is left only by its own test", fname(ps.fn), n), c.pos(h.Instrs[len(h.Instrs)-1].Pos()), fmt.Sprintf("%d blocks; exits from inside the body: %v", len(body), exits))
 		}
 	}
-	if n < 2 {
-		r.bad(rule, "instance floor R10.6", c.fnPos(fn), fmt.Sprintf("only %d loops found around the append (the candidate hours and the candidate years)", n))
+	if n < 1 {
+		r.bad(rule, "instance floor R10.6", c.fnPos(fn), fmt.Sprintf("only %d loops found around the append (the candidate years, and the candidate hours where they are a list)", n))
 	}
+}
+
+// lateRatSite: where the hour 23 is introduced as a further candidate of the rat slot: stored as the second
+// element of an hour list, or handed to a local helper or function literal that verifies one candidate hour.
+type lateRatSite struct {
+	fn    *ssa.Function
+	block *ssa.BasicBlock
+	pos   token.Pos
+	asc   bool // the hour-0 candidate comes before it (element 0 of the list, or an earlier call of the same verifier)
+}
+
+func lateRatSites(c *Ctx, fn *ssa.Function) []lateRatSite {
+	var out []lateRatSite
+	for _, f := range withHelpers(c, fn) {
+		for _, b := range f.Blocks {
+			for _, ins := range b.Instrs {
+				switch x := ins.(type) {
+				case *ssa.Store:
+					ia, ok := x.Addr.(*ssa.IndexAddr)
+					k, isK := constInt(x.Val)
+					if !ok || !isK || k != 23 {
+						continue
+					}
+					if i, ok := constInt(ia.Index); !ok || i != 1 {
+						continue
+					}
+					site := lateRatSite{fn: f, block: b, pos: x.Pos()}
+					for _, ins2 := range b.Instrs {
+						if st2, ok := ins2.(*ssa.Store); ok {
+							if ia2, ok := st2.Addr.(*ssa.IndexAddr); ok && ia2.X == ia.X {
+								i2, ok1 := constInt(ia2.Index)
+								k2, ok2 := constInt(st2.Val)
+								if ok1 && ok2 && i2 == 0 && k2 == 0 {
+									site.asc = true
+								}
+							}
+						}
+					}
+					out = append(out, site)
+				case *ssa.Call:
+					callee := x.Common().StaticCallee()
+					if callee == nil || !isLocalHelper(callee) || !inlineLibrary(callee) {
+						continue
+					}
+					for ai, a := range x.Common().Args {
+						if k, isK := constInt(a); !isK || k != 23 || !isIntType(a.Type()) {
+							continue
+						}
+						site := lateRatSite{fn: f, block: b, pos: x.Pos()}
+						// an earlier call of the same verifier with another hour
+						for _, b2 := range f.Blocks {
+							for _, ins2 := range b2.Instrs {
+								c2, ok := ins2.(*ssa.Call)
+								if !ok || c2 == x || c2.Common().StaticCallee() != callee || ai >= len(c2.Common().Args) {
+									continue
+								}
+								if _, same := constInt(c2.Common().Args[ai]); same {
+									if k2, _ := constInt(c2.Common().Args[ai]); k2 != 0 {
+										continue
+									}
+								}
+								if (b2 == b && instrIndex(b, c2) < instrIndex(b, x)) || (b2 != b && b2.Dominates(b)) {
+									site.asc = true
+								}
+							}
+						}
+						out = append(out, site)
+					}
+				}
+			}
+		}
+	}
+	return out
 }
 
 // R10.7: the chart shows the day pillar the reverse lookup verifies.
